@@ -8,7 +8,9 @@ run_one() {
   w=/tmp/sr_$d
   git -C /repo worktree remove --force $w >/dev/null 2>&1; rm -rf $w
   git -C /repo worktree add -q --detach $w HEAD || { echo "$d $prop WORKTREE-FAIL"; return; }
-  if ! git -C $w apply /verif/seeded/$d/patch.diff 2>/dev/null; then echo "$d $prop PATCH-DOES-NOT-APPLY"; git -C /repo worktree remove --force $w; return; fi
+  pf=$(ls /verif/seeded/$d/patch_rebased_*.diff 2>/dev/null | tail -1); pf=${pf:-/verif/seeded/$d/patch.diff}
+  if ! git -C $w apply -3 $pf >/dev/null 2>&1; then echo "$d $prop PATCH-DOES-NOT-APPLY"; git -C /repo worktree remove --force $w; return; fi
+  git -C $w reset -q
   out=$(bash /verif/tools/try_seed.sh $w $prop 2>&1)
   if echo "$out" | grep -q "^VIOLATION.*no-failing-input-found"; then r="reported-without-input"; elif echo "$out" | grep -q "^VIOLATION"; then r="CAUGHT"; else r="MISSED"; fi
   echo "$d $prop $r $(echo "$out" | grep -m1 '^check' | cut -c1-150)"
